@@ -408,12 +408,13 @@ class Decl:
         ts = toks_sexp(self.toks)
         return "(sd %s (toks%s) (env%s))" % (item, (" " + ts) if ts else "", env)
 
-    def rust_struct(self, fnrender):
+    def rust_struct(self, attr_text):
+        """the item as the user writes it; attr_text = rendered #[nutype(..)] argument"""
         gens = ""
         if self.generics:
             gens = "<" + ", ".join(g + (": " + " + ".join(bs) if bs else "") for g, bs in self.generics) + ">"
-        attrs = "".join(a[1] + "\n" for a in self.attrs)
-        head = "#[nutype(%s)]\n" % toks_rust(self.toks, fnrender)
+        attrs = "".join("    " + a[1] + "\n" for a in self.attrs)
+        head = "    #[nutype(%s)]\n" % attr_text
         vis = VIS_RUST[self.vis]
         if self.kind == "tuple":
             body = "struct %s%s(%s);" % (self.name, gens, ", ".join(
@@ -425,7 +426,7 @@ class Decl:
             body = "struct %s;" % self.name
         else:
             body = "enum %s { A }" % self.name
-        return head + attrs + ((vis + " ") if vis else "") + body
+        return head + attrs + "    " + ((vis + " ") if vis else "") + body + "\n"
 
 
 def val_sexp(v):
